@@ -55,9 +55,10 @@ def build_system(roots: Sequence[Path], args: Sequence[str] = (), order: Optiona
 class TmpProjects:
     """context manager writing a list of specs under one temp dir: .dirs[i] is the project dir of specs[i]"""
 
-    def __init__(self, specs: List[project.Spec], seed: Any = 0) -> None:
+    def __init__(self, specs: List[project.Spec], seed: Any = 0, same_print_seed: bool = False) -> None:
         self.specs = specs
         self.seed = seed
+        self.same_print_seed = same_print_seed
 
     def __enter__(self) -> 'TmpProjects':
         self.base = Path(tempfile.mkdtemp(prefix='vfproj-'))
@@ -66,7 +67,7 @@ class TmpProjects:
         for i, s in enumerate(self.specs):
             d = self.base / f'p{i}'
             d.mkdir()
-            self.roots.append(project.write(s, d, seed=(self.seed, i)))
+            self.roots.append(project.write(s, d, seed=(self.seed, 0 if self.same_print_seed else i)))
             self.dirs.append(d)
         return self
 
